@@ -20,6 +20,17 @@ chk("C01","model_checking",
     "Bounded: histories longer than the depth, or values outside the alphabets, are not covered. Decoder = the library's own reader (C02 adds an independent parser). Trusted: harness reference model (a Vec per track).",
     "exhaustive enumeration of operation histories (depth-bounded) on the real muxer+reader against a reference model","§3 C01")
 
+E3NOTE="Bounded: inputs within <=1 (quick) / <=2 (thorough, selected baselines) field substitutions of the baselines, values from a boundary menu; fields are the reads the parser itself performs. No byte-level havoc (that would be sampling). Trusted: harness streams/allocator, the watchdog (10 s wall per case)."
+chk("C06","model_checking",
+    "Each baseline (muxer outputs of every kind, canned files incl. fragment-mode, reference-encoded kitchen sinks) is opened and fully probed (every accessor, JSON/summary of every box, sample ids 0..count+1 and u32::MAX) under every single substitution of a boundary value into every field the parser reads (and all pairs on selected baselines in the thorough tier), in both an overflow-checked and a wrapping release build, in worker subprocesses so aborts and stack overflows are attributed; no panic/abort on any explored input.",
+    E3NOTE,"exhaustive deviation-bounded exploration of inputs (k<=2 field substitutions, dynamic field discovery) on the real reader, two build profiles, process isolation","§3 C06")
+chk("C07","model_checking",
+    "Same executions as C06 with a counting, budgeted stream: every open and every later call must stay within 64n+4096 stream operations and 64n+2^20 bytes (+ the returned sample), and thread CPU time within 0.5 s per phase; a watchdog turns a non-terminating case into an attributed violation instead of a hung run.",
+    E3NOTE+" The CPU clause rests on a time threshold (>100x over honest work).","exhaustive deviation-bounded exploration with operation/byte/CPU budgets on the real reader","§3 C07")
+chk("C08","model_checking",
+    "Same executions as C06 under a counting global allocator: peak live bytes and the largest single request during open and during the call suite must stay within 128n+8MiB; a refused (>32 GiB) request is recorded before the process aborts.",
+    E3NOTE,"exhaustive deviation-bounded exploration with an allocation-counting allocator on the real reader","§3 C08")
+
 NA={}
 m={"version":1,
    "setup_cmd":"cd harness && CARGO_NET_OFFLINE=true cargo build --offline --release && CARGO_NET_OFFLINE=true cargo build --offline --profile wrapping",
